@@ -42,7 +42,7 @@
   payer holds it; an SFT is created with a strictly positive quantity; the account exists.
 
   Addresses are naturals: users `1..n`, whitelisted "proxy" accounts from 101, `0` is the zero
-  address (used by the reward view — finding F3).  The staking token has no model-side wallet
+  address.  The staking token has no model-side wallet
   ledger except the contract's own balance `bal` (ghost).
 -/
 import MxModel.Core.Arith
@@ -701,14 +701,15 @@ def claimBoostedRewards (s : St) (caller : Nat) (user : Option Nat) : Option (St
 /-! ### the reward view (lib.rs) -/
 
 /-- `calculateRewardsForGivenPosition(amount, attributes)`: only callable by the contract itself
-    (VM query); settles rewards, then `calculate_rewards` with the ZERO ADDRESS as user, so the
-    boosted part is that of address 0 (finding F3).  In the white-box VM the settlement is
-    committed, hence the state result. -/
+    (VM query); settles rewards, then `calculate_rewards` for the position's recorded
+    `original_owner` (repo commit da24d8b; before it the zero address was passed and the quote
+    omitted the boosted part — finding F3).  The result pairs the state the query WOULD leave
+    (a VM query is discarded on chain: `step` keeps the old state) with the quoted amount. -/
 def calcRewards (s : St) (queried : Bool) (amt : Nat) (t : Attrs) : Option (St × Nat) := do
   req (queried = true)
   let g ← generate s s.cache
   let base := baseReward g.2 s.dsc amt t
-  let r ← claimBoostedYields g.1 0 (g.1.userTotal 0)
+  let r ← claimBoostedYields g.1 t.owner (g.1.userTotal t.owner)
   pure ((({ g.1 with w := r.1, b := r.2.1 } : St).flush g.2), base + r.2.2)
 
 /-! ### admin endpoints (custom_rewards.rs, lib.rs, rewards.rs, farm-boosted-yields) -/
@@ -852,7 +853,7 @@ def stepCore (s : St) : Op → Option (St × Out)
   | .unbond c p => unbondFarm s c p
   | .merge c ps => mergeTokens s c ps
   | .claimBoosted c u => claimBoostedRewards s c u
-  | .calc q a t => (calcRewards s q a t).map fun r => (r.1, ⟨0, 0, r.2⟩)
+  | .calc q a t => (calcRewards s q a t).map fun r => (s, ⟨0, 0, r.2⟩)
   | .transfer a b p => transfer s a b p
   | .setEnergy u a l => some ({ s with energy := upd s.energy u (some ⟨(a : Int), s.epoch, l⟩) }, {})
   | .updateEnergy u => updateEnergy s u
